@@ -856,6 +856,17 @@ def alignment_defect(scores, tol=ATOL):
     return None
 
 
+def even_flip_gain(scores, tol=ATOL):
+    """C08_fixsigns_ref_optimal on one component (None when it holds): no even set of further flips raises the sum
+    of the sign scores, i.e. the scores of every even-sized set of modes add up to a non-negative number"""
+    N = len(scores)
+    for k in range(2, N + 1, 2):
+        for F in itertools.combinations(range(N), k):
+            if sum(scores[n] for n in F) < -tol:
+                return f"flipping modes {list(F)} as well would raise the total correlation with the reference"
+    return None
+
+
 def unit_vec(n, i, s=1):
     v = [0] * n
     v[i] = s
@@ -866,7 +877,7 @@ class FixsignsRef(KFamily):
     name = "fixsigns_ref"
     kt_keys = ("K", "other")
     theorems = ("C08_fixsigns_ref_denote", "C08_fixsigns_ref_pinned_counterexample", "C08_fixsigns_ref_normal_form",
-                "C08_fixsigns_ref_even", "C08_fixsigns_ref_idem", "C08_fixsigns_ref_accepts",
+                "C08_fixsigns_ref_optimal", "C08_fixsigns_ref_even", "C08_fixsigns_ref_idem", "C08_fixsigns_ref_accepts",
                 "C08_fixsigns_ref_rejects")
 
     @staticmethod
@@ -1050,7 +1061,7 @@ class FixsignsRef(KFamily):
                 # ties and scores that are zero up to rounding are checked too)
                 for rr in range(RB):
                     after = ref_scores(fs, ofs, rr)
-                    d = alignment_defect(after)
+                    d = alignment_defect(after) or even_flip_gain(after)
                     if d is None and negs[rr] % 2 == 0 and (exact or not fragile) and any(x < -ATOL for x in after):
                         d = "an even number of modes was negatively correlated, yet one is left"
                     if d is not None:
